@@ -23,6 +23,13 @@ Open Scope Z_scope.
    (InMemoryHistory._storage, oldest first), _loaded. *)
 Record hstore := mkst { ls : list str; sto : list str; loaded : bool }.
 
+(* ThreadedHistory (as patched by 0c2cbbe): whether the History object is one,
+   _num_prepended, whether the loader thread has been started, the items the
+   thread still has to read from the backend (newest first: the snapshot
+   load_history_strings() took when the thread started), and - belonging to the
+   Buffer's running load() - prepended_at_start. *)
+Record tstore := mkth { thr : bool; nprep : Z; tstarted : bool; tsrc : list str; tprep : Z }.
+
 (* ValidationState *)
 Definition V_UNKNOWN : Z := 0.
 Definition V_VALID : Z := 1.
@@ -41,7 +48,8 @@ Record hs := mk {
                              next item of the live _loaded_strings list) *)
   tfin : bool;            (* the load generator is exhausted *)
   ehs : bool;             (* enable_history_search() *)
-  sel : bool              (* selection_state is not None *)
+  sel : bool;             (* selection_state is not None *)
+  th : tstore             (* ThreadedHistory part of the History object *)
 }.
 
 (* What does not change during a session *)
@@ -51,17 +59,18 @@ Record cfg := mkcfg {
   val : option (str -> Z -> option Z)        (* validator: text, cursor -> error position *)
 }.
 
-Definition set_wl s v := mk v (wi s) (cur s) (hst s) (pref s) (vst s) (pend s) (store s) (task s) (tfin s) (ehs s) (sel s).
-Definition set_wi_raw s v := mk (wl s) v (cur s) (hst s) (pref s) (vst s) (pend s) (store s) (task s) (tfin s) (ehs s) (sel s).
-Definition set_cur_raw s v := mk (wl s) (wi s) v (hst s) (pref s) (vst s) (pend s) (store s) (task s) (tfin s) (ehs s) (sel s).
-Definition set_hst s v := mk (wl s) (wi s) (cur s) v (pref s) (vst s) (pend s) (store s) (task s) (tfin s) (ehs s) (sel s).
-Definition set_pref s v := mk (wl s) (wi s) (cur s) (hst s) v (vst s) (pend s) (store s) (task s) (tfin s) (ehs s) (sel s).
-Definition set_vst s v := mk (wl s) (wi s) (cur s) (hst s) (pref s) v (pend s) (store s) (task s) (tfin s) (ehs s) (sel s).
-Definition set_pend s v := mk (wl s) (wi s) (cur s) (hst s) (pref s) (vst s) v (store s) (task s) (tfin s) (ehs s) (sel s).
-Definition set_store s v := mk (wl s) (wi s) (cur s) (hst s) (pref s) (vst s) (pend s) v (task s) (tfin s) (ehs s) (sel s).
-Definition set_task s v f := mk (wl s) (wi s) (cur s) (hst s) (pref s) (vst s) (pend s) (store s) v f (ehs s) (sel s).
-Definition set_sel s v := mk (wl s) (wi s) (cur s) (hst s) (pref s) (vst s) (pend s) (store s) (task s) (tfin s) (ehs s) v.
-Definition set_ehs s v := mk (wl s) (wi s) (cur s) (hst s) (pref s) (vst s) (pend s) (store s) (task s) (tfin s) v (sel s).
+Definition set_wl s v := mk v (wi s) (cur s) (hst s) (pref s) (vst s) (pend s) (store s) (task s) (tfin s) (ehs s) (sel s) (th s).
+Definition set_wi_raw s v := mk (wl s) v (cur s) (hst s) (pref s) (vst s) (pend s) (store s) (task s) (tfin s) (ehs s) (sel s) (th s).
+Definition set_cur_raw s v := mk (wl s) (wi s) v (hst s) (pref s) (vst s) (pend s) (store s) (task s) (tfin s) (ehs s) (sel s) (th s).
+Definition set_hst s v := mk (wl s) (wi s) (cur s) v (pref s) (vst s) (pend s) (store s) (task s) (tfin s) (ehs s) (sel s) (th s).
+Definition set_pref s v := mk (wl s) (wi s) (cur s) (hst s) v (vst s) (pend s) (store s) (task s) (tfin s) (ehs s) (sel s) (th s).
+Definition set_vst s v := mk (wl s) (wi s) (cur s) (hst s) (pref s) v (pend s) (store s) (task s) (tfin s) (ehs s) (sel s) (th s).
+Definition set_pend s v := mk (wl s) (wi s) (cur s) (hst s) (pref s) (vst s) v (store s) (task s) (tfin s) (ehs s) (sel s) (th s).
+Definition set_store s v := mk (wl s) (wi s) (cur s) (hst s) (pref s) (vst s) (pend s) v (task s) (tfin s) (ehs s) (sel s) (th s).
+Definition set_task s v f := mk (wl s) (wi s) (cur s) (hst s) (pref s) (vst s) (pend s) (store s) v f (ehs s) (sel s) (th s).
+Definition set_sel s v := mk (wl s) (wi s) (cur s) (hst s) (pref s) (vst s) (pend s) (store s) (task s) (tfin s) (ehs s) v (th s).
+Definition set_th s v := mk (wl s) (wi s) (cur s) (hst s) (pref s) (vst s) (pend s) (store s) (task s) (tfin s) (ehs s) (sel s) v.
+Definition set_ehs s v := mk (wl s) (wi s) (cur s) (hst s) (pref s) (vst s) (pend s) (store s) (task s) (tfin s) v (sel s) (th s).
 
 (* Buffer.text: _working_lines[working_index] (Python indexing) *)
 Definition text (s : hs) : str :=
@@ -259,17 +268,28 @@ Definition validate (c : cfg) (s : hs) (sc : bool) : hs * bool :=
 Definition append_string (h : hstore) (t : str) : hstore :=
   mkst (t :: ls h) (sto h ++ [t]) (loaded h).
 
-(* Buffer.append_to_history: get_strings() loads the history first;
-   history_strings[-1] is the head of _loaded_strings *)
+(* History.get_strings(): _ensure_loaded (a no-op for ThreadedHistory, whose
+   strings are "what the thread loaded so far"), then the reversed list *)
+Definition hist_for_get (s : hs) : hstore :=
+  if thr (th s) then store s else ensure_loaded (store s).
+
+(* append_string: ThreadedHistory counts the insertion in front *)
+Definition do_append (s : hs) (h : hstore) (t : str) : hs :=
+  let s1 := set_store s (append_string h t) in
+  if thr (th s) then set_th s1 (mkth true (nprep (th s) + 1) (tstarted (th s)) (tsrc (th s)) (tprep (th s)))
+  else s1.
+
+(* Buffer.append_to_history: history_strings[-1] is the head of
+   _loaded_strings *)
 Definition append_to_history (s : hs) : hs :=
   let t := text s in
   match t with
   | [] => s
   | _ =>
-      let h := ensure_loaded (store s) in
+      let h := hist_for_get s in
       match ls h with
-      | [] => set_store s (append_string h t)
-      | x :: _ => if str_eqb x t then set_store s h else set_store s (append_string h t)
+      | [] => do_append s h t
+      | x :: _ => if str_eqb x t then set_store s h else do_append s h t
       end
   end.
 
@@ -289,7 +309,7 @@ Definition append_to_history_pinned (s : hs) : hs :=
 (* Buffer.reset(Document(t, c), append_to_history=app) *)
 Definition reset (s : hs) (t : str) (c : Z) (app : bool) : hs :=
   let s0 := if app then append_to_history s else s in
-  mk [t] 0 c None None V_UNKNOWN (pend s0) (store s0) None false (ehs s0) false.
+  mk [t] 0 c None None V_UNKNOWN (pend s0) (store s0) None false (ehs s0) false (th s0).
 
 (* validate_and_handle; the accept handler records buffer.text and returns
    [keep c] *)
@@ -305,7 +325,7 @@ Definition validate_and_handle (c : cfg) (s : hs) : hs * option str :=
    file): a fresh History object - nothing loaded, nothing cached - and a
    fresh buffer. *)
 Definition reopen (s : hs) : hs :=
-  reset (set_store s (mkst [] (sto (store s)) false)) [] 0 false.
+  reset (set_th (set_store s (mkst [] (sto (store s)) false)) (mkth (thr (th s)) 0 false [] 0)) [] 0 false.
 
 (* Buffer.apply_search once the search found (working_index, cursor_position):
        self.working_index = working_index; self.cursor_position = cursor_position
@@ -318,15 +338,54 @@ Definition jump (c : cfg) (s : hs) (i p : Z) : hs :=
 (* load_history_if_not_yet_loaded: creates the task; nothing is read yet *)
 Definition load_start (s : hs) : hs :=
   match task s with
-  | None => set_task s (Some 0) false
+  | None =>
+      let s1 := set_task s (Some 0) false in
+      if thr (th s) then
+        (* ThreadedHistory.load(): the first call empties _loaded_strings and
+           starts the thread (which takes its snapshot of the backend);
+           every call remembers _num_prepended *)
+        let t := th s in
+        if tstarted t then set_th s1 (mkth true (nprep t) true (tsrc t) (nprep t))
+        else set_th (set_store s1 (mkst [] (sto (store s)) (loaded (store s))))
+                    (mkth true (nprep t) true (rev (sto (store s))) (nprep t))
+      else s1
   | Some _ => s
   end.
+
+(* the loader thread reads one more item from its snapshot, or finishes *)
+Definition thread_step (s : hs) : hs :=
+  let t := th s in
+  if thr t && tstarted t then
+    match tsrc t with
+    | x :: r => set_th (set_store s (mkst (ls (store s) ++ [x]) (sto (store s)) (loaded (store s))))
+                       (mkth true (nprep t) true r (tprep t))
+    | [] => set_store s (mkst (ls (store s)) (sto (store s)) true)
+    end
+  else s.
+
+(* ThreadedHistory.load() as consumed by Buffer.load_history: whenever the
+   thread signalled, everything behind skip + items_yielded is delivered
+   (appendleft + index shift per item); the task ends when _loaded is seen. *)
+Definition consume (s : hs) : hs :=
+  if thr (th s) then
+    match task s with
+    | Some y =>
+        if tfin s then s
+        else
+          let skip := nprep (th s) - tprep (th s) in
+          let items := skipn (Z.to_nat (skip + y)) (ls (store s)) in
+          let s1 := set_wi_raw (set_wl s (rev items ++ wl s)) (wi s + len items) in
+          set_task s1 (Some (y + len items)) (loaded (store s))
+    | None => s
+    end
+  else s.
 
 (* History.load(): the first step calls _ensure_loaded; every step reads item
    [i] of the live list. *)
 
 (* one item delivered to Buffer.load_history: appendleft + index shift *)
 Definition pop_step (s : hs) : hs :=
+  if thr (th s) then s else
   match task s with
   | None => s
   | Some i =>
@@ -375,7 +434,8 @@ Inductive op :=
 | OAppend
 | OReopen
 | OJump (i p : Z)
-| OSelect (b : bool).
+| OSelect (b : bool)
+| OThread.
 
 Definition ST_OK : Z := 0.
 
@@ -417,18 +477,20 @@ Definition step_core (c : cfg) (s : hs) (o : op) : outcome :=
   | OReopen => ok (reopen s)
   | OJump i p => ok (jump c s i p)
   | OSelect b => ok (set_sel s b)      (* start_selection() / exit_selection() *)
+  | OThread => ok (thread_step s)
   end.
 
 (* an operation followed by the completion of the validation it scheduled *)
 Definition step (c : cfg) (s : hs) (o : op) : outcome :=
-  let '(st, s', r) := step_core c s o in (st, flush c s', r).
+  let '(st, s', r) := step_core c s o in (st, flush c (consume s'), r).
 
 Definition step_state (c : cfg) (s : hs) (o : op) : hs := snd (fst (step c s o)).
 Definition steps (c : cfg) (s : hs) (ops : list op) : hs := fold_left (step_state c) ops s.
 
 (* A freshly constructed Buffer(history=InMemoryHistory(storage)) *)
-Definition init (storage : list str) (e : bool) : hs :=
-  mk [[]] 0 0 None None V_UNKNOWN false (mkst [] storage false) None false e false.
+Definition init_k (storage : list str) (e k : bool) : hs :=
+  mk [[]] 0 0 None None V_UNKNOWN false (mkst [] storage false) None false e false (mkth k 0 false [] 0).
+Definition init (storage : list str) (e : bool) : hs := init_k storage e false.
 
 (* ---------------------------------------------------------------------- *)
 (* Validators available to the correspondence harness (the theorems quantify
@@ -496,6 +558,7 @@ Definition dec_op (x : sx) : option op :=
   | L [A 22] => Some OReopen
   | L [A 23; A i; A p] => Some (OJump i p)
   | L [A 25; A b] => Some (OSelect (b =? 1))
+  | L [A 26] => Some OThread
   | _ => None
   end.
 
@@ -556,16 +619,22 @@ Fixpoint run_ops (c : cfg) (s : hs) (ops : list (bool * bool * op)) : list sx :=
 
 (* case = ((storage ...) ehs vwt keep validator (op ...))
    validator = () for "no validator", ((rule ...)) otherwise *)
+Definition run_C14_k (k : bool) (storage : list sx) (e w kp : Z) (v : sx) (ops : list sx) : sx :=
+  match map_opt as_str storage, as_opt (fun y => match y with L rs => map_opt dec_rule rs | _ => None end) v,
+        map_opt dec_oop ops with
+  | Some storage', Some v', Some ops' =>
+      let c := mkcfg (w =? 1) (kp =? 1)
+                     (match v' with Some rules => Some (run_validator rules) | None => None end) in
+      L (run_ops c (init_k storage' (e =? 1) k) ops')
+  | _, _, _ => bad_case
+  end.
+
+(* case = ((storage ...) ehs vwt keep validator (op ...)) for an
+   InMemoryHistory/FileHistory, with a trailing 1 for ThreadedHistory over it;
+   validator = () for "no validator", ((rule ...)) otherwise *)
 Definition run_C14 (x : sx) : sx :=
   match x with
-  | L [L storage; A e; A w; A k; v; L ops] =>
-      match map_opt as_str storage, as_opt (fun y => match y with L rs => map_opt dec_rule rs | _ => None end) v,
-            map_opt dec_oop ops with
-      | Some storage', Some v', Some ops' =>
-          let c := mkcfg (w =? 1) (k =? 1)
-                         (match v' with Some rules => Some (run_validator rules) | None => None end) in
-          L (run_ops c (init storage' (e =? 1)) ops')
-      | _, _, _ => bad_case
-      end
+  | L [L storage; A e; A w; A k; v; L ops] => run_C14_k false storage e w k v ops
+  | L [L storage; A e; A w; A k; v; L ops; A 1] => run_C14_k true storage e w k v ops
   | _ => bad_case
   end.
